@@ -1,20 +1,22 @@
 #!/usr/bin/env python3
-"""Apply a seeded change to /repo, run every check, undo. usage: seed_eval.py <patch.diff> [PROP ...]"""
+"""Apply a seeded change to /repo (or to the scratch worktree named by SEED_REPO), run every check, undo.
+usage: seed_eval.py <patch.diff> [PROP ...]"""
 import subprocess, sys, re, json, os
 patch = sys.argv[1]
+REPO = os.environ.get('SEED_REPO', '/repo')
 props = sys.argv[2:] or ['C%02d' % i for i in range(1, 21)]
-assert subprocess.run(['git', '-C', '/repo', 'status', '--porcelain', '--untracked-files=no'], capture_output=True, text=True).stdout.strip() == '', '/repo not clean'
-r = subprocess.run(['git', '-C', '/repo', 'apply', patch], capture_output=True, text=True)
+assert subprocess.run(['git', '-C', REPO, 'status', '--porcelain', '--untracked-files=no'], capture_output=True, text=True).stdout.strip() == '', REPO + ' not clean'
+r = subprocess.run(['git', '-C', REPO, 'apply', patch], capture_output=True, text=True)
 if r.returncode != 0:
     print('APPLY FAILED', r.stderr[:500]); sys.exit(3)
 res = {}
 try:
     for p in props:
-        out = subprocess.run(['./check', p, '--no-evidence'], cwd='/verif', capture_output=True, text=True).stdout
+        out = subprocess.run(['./check', p, '--no-evidence', '--repo', REPO], cwd='/verif', capture_output=True, text=True).stdout
         hits = re.findall(r'^\[(C\d\d\.\w+)\] ([^:]+):', out, flags=re.M)
         broken = 'CHECK-BROKEN' in out
         if hits or broken:
             res[p] = ['%s %s' % h for h in hits] + (['CHECK-BROKEN ' + out[-300:]] if broken else [])
 finally:
-    subprocess.run(['git', '-C', '/repo', 'checkout', '--', '.'])
+    subprocess.run(['git', '-C', REPO, 'checkout', '--', '.'])
 print(json.dumps(res, indent=1))
